@@ -210,4 +210,12 @@ PROPS = {
         "level_text": "Proof: checkInference_iff — the acceptor for an explanation (premises -> conclusion, or -> false) is equivalent to semantic entailment from the single tagged constraint within the declared domains, hence sound AND complete (never rejects a valid explanation); accepted_propagation / accepted_conflict / never_prunes_solution / accepted_model_inference. Tie to code (hook: explanation tap): every propagation (reason computed immediately, lazy reasons included), every reported conflict, every reason handed to conflict analysis later (explicit, lazily recomputed, implicit) and every learned nogood during real searches is recorded with the propagator's tag and judged; 'all reason predicates hold in the state in which the reason is given' is evaluated inside the hook.",
         "level_note": LEVEL_NOTE_COMMON + "Enumeration limits trace acceptance to small domains; nogood-propagator reasons are judged against the whole model.",
     },
+    "C19": {
+        "streams": [
+            {"name": "drcp", "mode": "drcp", "quick": 400, "thorough": 10000, "args": []},
+        ],
+        "relevant": lambda kind, rec, case: True,
+        "level_text": "Proof: Model/Drcp.lean models the writer (render) and the reader grammar (parse) at token level with the Rust types' ranges (NonZero i32 literals, u64 ids, u32 tags); parse_render: every well-formed step reads back unchanged (empty premise lists, empty nogoods with/without hints, empty hint lists, tag, label, extreme codes), parse_render_seq for sequences; IntAtomic.not_not / not64_not64 / BoolAtomic.not_not. Tie to code: random step sequences through the real ProofWriter must be byte-identical to the model's rendering (exact), the real ProofReader must return the written steps, on malformed token soups the real reader's accept/reject verdict and result must equal the model's; LiteralDefinitions write -> parse -> equal and deterministic; !!a == a through the real Not impl.",
+        "level_note": LEVEL_NOTE_COMMON + "Lexing (characters <-> tokens, Rust integer Display / nom integer parsers) is glue checked by the exact correspondence, not proved.",
+    },
 }
